@@ -15,7 +15,7 @@ CONSTANTS
   Buds = {0}
   NSAs = {FALSE}
   OptSets <- OptsKeys
-  Budgets = {1, 2, 3, 5, 8}
+  Budgets = {2, 3, 5}
 VIEW MCView
 INVARIANTS TypeOK AtMostOnce ExactlyOnce Unbiased KeptRowsFactorGE1 NoSampleAgentKept SameFactorInLeaf FitsNothingSampled FairShare FixedWithinBudget FairShareRemaining FitIsJustified Monotone KeptWithinBudget QuotaWithinTotal QuotaProportional QuotaFitIsSize QuotaWithinTotalAnyRounding ExportDone
 CHECK_DEADLOCK FALSE
